@@ -221,6 +221,29 @@ def candidates_part(tier, d, verdict, exe, bindir):
             ndef = len([c for c in cands if c['dodir'] == dirs]) - 1
             if len(tail) != ndef or any(not x.startswith('/|default') for x in tail):
                 bad.append({'target': '/'.join(dirs + [name]), 'spec_tail': 'the default candidates once more in /', 'possible_do_files': tail})
+    # the letter `a` of the specification's alphabet stands for any character that is neither a dot nor a slash: the
+    # same comparison with representatives that take several bytes in UTF-8, and a space
+    def mapname(x, ch):
+        return x.replace('a', ch)
+
+    def mapdo(dofile, name, ch):
+        if dofile == name + '.do':
+            return mapname(name, ch) + '.do'
+        assert dofile.startswith('default') and dofile.endswith('.do'), dofile
+        return 'default' + mapname(dofile[len('default'):-3], ch) + '.do'
+    nrep = 0
+    for ch in ('\u00e9', '\u65e5\u672c', ' '):
+        sub = [t for t in table if 'a' in t[1]]
+        reqs = [('dofiles', root + ''.join('/' + x for x in dirs) + '/' + mapname(name, ch)) for dirs, name, _ in sub]
+        got = vfun_batch(exe, reqs)
+        for (dirs, name, cands), have in zip(sub, got):
+            want = ['%s|%s' % (root + ''.join('/' + x for x in c['dodir']), mapdo(c['dofile'], name, ch)) for c in cands]
+            havel = have.split('\t')
+            nrep += 1
+            if havel[:len(want)] != want:
+                bad.append({'target': '/'.join(dirs + [mapname(name, ch)]), 'spec': want, 'possible_do_files': havel[:len(want) + 2],
+                            'note': 'the letter a of the enumerated name replaced by %r' % ch})
+    cov['dofiles_compared_with_representative_characters'] = nrep
     cov['dofiles_compared'] = len(table)
     if bad:
         rp = os.path.join(d, 'dofiles_mismatch.json')
@@ -371,11 +394,13 @@ def spellings(p, cwd_rel):
     """spellings of the file p/sub/t as seen from the directory p/<cwd_rel>"""
     ab = os.path.join(p, 'sub', 't')
     if cwd_rel == '':
-        rel = ['sub/t', './sub/t', 'sub/../sub/t', 'sub//t', 'sym/t', 'sub/deep/../t', 'sub/./t']
+        rel = ['sub/t', './sub/t', 'sub/../sub/t', 'sub//t', 'sym/t', 'sub/deep/../t', 'sub/./t', 'far/../t']
     elif cwd_rel == 'sub':
-        rel = ['t', './t', '../sub/t', 'deep/../t', '../sym/t', './/t']
+        rel = ['t', './t', '../sub/t', 'deep/../t', '../sym/t', './/t', '../far/../t']
     else:
-        rel = ['../t', '../../sub/t', './../t', '../../sym/t', '..//t']
+        rel = ['../t', '../../sub/t', './../t', '../../sym/t', '..//t', '../../far/../t']
+    # (`far` is a symbolic link in the project directory to sub/deep: `..` after it leads to sub, not to the project
+    # directory - a spelling that lexical cleaning alone gets wrong)
     return rel + [ab, '/' + ab]
 
 
@@ -385,6 +410,7 @@ def alias_case(root, bindir, cwd_rel, s1, s2, j, cmd):
     os.makedirs(os.path.join(p, 'sub', 'deep'))
     os.makedirs(os.path.join(p, '.redo'))
     os.symlink('sub', os.path.join(p, 'sym'))
+    os.symlink('sub/deep', os.path.join(p, 'far'))
     with open(os.path.join(p, 'sub', 't.do'), 'w') as f:
         f.write('echo run >> "%s"\nsleep 0.05\necho content\n' % os.path.join(root, 'count'))
     env = clean_env(bindir)
@@ -430,6 +456,7 @@ def alias_contended_case(root, bindir, cwd_rel, sps, j):
     os.makedirs(os.path.join(p, 'sub', 'deep'))
     os.makedirs(os.path.join(p, '.redo'))
     os.symlink('sub', os.path.join(p, 'sym'))
+    os.symlink('sub/deep', os.path.join(p, 'far'))
     with open(os.path.join(p, 'sub', 't.do'), 'w') as f:
         f.write('echo run >> "%s"\nsleep 0.4\necho content\n' % os.path.join(root, 'count'))
     env = clean_env(bindir)
